@@ -374,7 +374,7 @@ fn crop_check(seq: &[u8], w: usize, h: usize) {
 
 // @tier quick
 // @timeout 900
-// @bounds block_to_sequential: 16x8 texture of 8x4 blocks with position-coded bytes, probed byte symbolic; crop of the 16-wide result to (5x3), (9x8) or (16x8) chosen by the solver
+// @bounds block_to_sequential: 16x8 texture of 8x4 blocks with position-coded bytes, probed byte symbolic; crop of the 16-wide result to (5x3), (9x8), (16x8), (16x5: full-width rows, padding rows dropped) or (8x1), chosen by the solver
 // @claims block_to_sequential moves byte (block b, row r, column c) to row b_row*4+r, column b_col*8+c; crop keeps the top-left width x height window
 #[kani::proof]
 #[kani::unwind(130)]
@@ -395,7 +395,10 @@ fn c19_block_helpers() {
     if sel == 0 { crop_check(&seq, 5, 3); }
     if sel == 1 { crop_check(&seq, 9, 8); }
     if sel == 2 { crop_check(&seq, 16, 8); }
+    if sel == 3 { crop_check(&seq, 16, 5); }
+    if sel == 4 { crop_check(&seq, 8, 1); }
     kani::cover!(sel == 1);
+    kani::cover!(sel == 3);
     std::mem::forget(seq);
 }
 
